@@ -13,10 +13,13 @@ PROP = 'C09'
 CFG = 'asan'
 SNAP = 1 << 16
 
-def monitored(L, fname, case, fail_at):
-    """run one catalogue call under the allocation monitor -> (result dict, stats list)"""
+def monitored(L, fname, case, fail_at, sticky=False):
+    """run one catalogue call under the allocation monitor -> (result dict, stats list); sticky: every allocation point from the
+    fail_at-th on fails (memory stays exhausted), otherwise exactly the fail_at-th"""
     out = (ctypes.c_long * 8)()
-    L.dll.vh_mon_start(ctypes.c_long(fail_at), None, ctypes.c_size_t(0))
+    L.dll.vh_mon_start(ctypes.c_long(0 if sticky else fail_at), None, ctypes.c_size_t(0))
+    if sticky:
+        L.dll.vh_mon_sticky(ctypes.c_long(fail_at))
     try:
         res = common.run_fn(L, fname, case, fill=0xC3)
     finally:
@@ -40,6 +43,15 @@ def fault_case(item):
             return n, 'allocation %d of %d failed but the call returned ERR_OK' % (i, n)
         if s[1] != 0:
             return n, 'allocation %d of %d failed: the call returned %#x and left %d allocation(s) behind' % (i, n, res['ret'], s[1])
+        if i < n:
+            # second deviation bound: memory STAYS exhausted from the i-th allocation point on (a retry, an error handler that allocates)
+            res, s = monitored(L, fname, case, i, sticky=True)
+            if s[2] < 1:
+                return n, 'HARNESS: allocation %d of %d was not reached on re-execution (persistent failure)' % (i, n)
+            if res['ret'] == 0:
+                return n, 'every allocation from the %d-th of %d on failed but the call returned ERR_OK' % (i, n)
+            if s[1] != 0:
+                return n, 'every allocation from the %d-th of %d on failed: the call returned %#x and left %d allocation(s) behind' % (i, n, res['ret'], s[1])
     return n, None
 
 def sweep_cases(tier):
@@ -458,7 +470,7 @@ def sub(tier, what, out):
             k, m = C07.classify(r.get('stderr', '') or r.get('harness_error', '') or r.get('crash', ''))
             add('fault:%s:%s' % (k, f), rec, '%s under allocation faults: %s [%s]' % (f, m, cat.short(c))); continue
         n, msg = r
-        npoints += n; nruns += n + 1; fns.add(f)
+        npoints += n; nruns += n + 1 + max(0, n - 1); fns.add(f)
         if msg:
             add('fault:%s' % f, rec, '%s: %s  [%s]' % (f, msg, cat.short(c)))
     result['parts']['allocation_faults'] = dict(states=npoints, transitions=nruns, traces_validated_against_impl=nruns, evaluations=nruns, functions=len(fns), calls=len(cases))
@@ -536,13 +548,14 @@ def run(tier):
         chk.cov['distinct_nontrivial'] += p['states']
         chk.outcome(name)
     chk.sample({'fault': 'beltDWPWrap', 'allocation_points': 1, 'runs': ['no fault', 'fail 1st']})
+    chk.sample({'fault': 'bakeBSTSRunB', 'allocation_points': 10, 'runs': ['no fault', 'fail exactly the i-th, i = 1..10', 'fail every allocation from the i-th on, i = 1..9']})
     chk.sample({'sweep': 'beltFMTEncr', 'mod': [0, 1, 2, 3, 65535, 65536, 65537, 131072, 2 ** 31, 2 ** 32 - 1]})
     chk.sample({'auth': 'beltKWPUnwrap', 'corruption': 'every single bit of the token', 'needle': 'every 8-octet window of the wrapped key'})
     chk.assumptions += ['allocation points are the malloc/realloc calls reached through mem.c (link-time --wrap); realloc is made to move always',
                         'error classes are those of the headers (\\expect{ERR_...}) as encoded in the catalogue reference predicates',
                         'executed under AddressSanitizer with exact-size buffers, so a write beyond a documented output size is a crash']
     return chk.finish('C09', 'fault points: for each high-level call of the quick corpora, N = number of allocations of the fault-free run, then N runs failing exactly '
-                      'the i-th; sweeps: each length/scalar argument across and beyond its documented domain; auth: every single-bit corruption of authenticated inputs')
+                      'the i-th and N - 1 runs in which every allocation from the i-th on fails (memory stays exhausted); sweeps: each length/scalar argument across and beyond its documented domain; auth: every single-bit corruption of authenticated inputs')
 
 def replay(rec):
     corpora.load_all()
